@@ -235,3 +235,25 @@ def pmap(fn, items, procs=None, chunksize=1):
     ctx = mp.get_context("fork")
     with ctx.Pool(procs) as pool:
         return pool.map(fn, items, chunksize=chunksize)
+
+
+def check_portfolio(tally, constraints, plan=((None, 20000), ("qfnra-nlsat", 60000), (None, 120000)), label=None,
+                    keep_sample=False):
+    """Tries several z3 strategies in turn; the first definite verdict wins."""
+    last = ("unknown", "no strategy")
+    for i, (tactic, tmo) in enumerate(plan):
+        sub = Tally()
+        r = check(sub, constraints, tmo, label=label, keep_sample=keep_sample, tactic=tactic)
+        tally.time += sub.time
+        tally.max_time = max(tally.max_time, sub.max_time)
+        if r[0] != "unknown":
+            tally.unsat += sub.unsat
+            tally.sat += sub.sat
+            for smp in sub.samples:
+                if len(tally.samples) < 12:
+                    smp["strategy"] = tactic or "default"
+                    tally.samples.append(smp)
+            return r
+        last = r
+    tally.unknown += 1
+    return last
